@@ -260,19 +260,30 @@ fn c02_walk(idx: usize, ctx: &Ctx, rpt: &mut Report) {
             return;
         },
     };
-    let model = model_walk(&case.start, follow_of(&behaviour));
+    // When links are followed, re-entrant links are relative to the ancestors of the traversal,
+    // which starts at the base joined with the invariant prefix (as in C15); otherwise the model
+    // traverses everything beneath the base without consulting the prefix.
+    let (start, start_candidate) = if follow_of(&behaviour) && case.family == "unrooted" {
+        let (s, _) = glob.verif_walk_anchor(case.base.clone());
+        let pre = rel_of(&s, &case.base).unwrap_or_default();
+        (s, pre)
+    }
+    else {
+        (case.start.clone(), case.start_candidate.clone())
+    };
+    let model = model_walk(&start, follow_of(&behaviour));
     let mut expected = Vec::new();
     let mut matched_dirs = 0;
     let mut optional_start: Option<PathBuf> = None;
     for e in model.oks() {
         let cand = if e.rel.is_empty() {
-            case.start_candidate.clone()
+            start_candidate.clone()
         }
-        else if case.start_candidate.is_empty() {
+        else if start_candidate.is_empty() {
             e.rel.clone()
         }
         else {
-            format!("{}/{}", case.start_candidate, e.rel)
+            format!("{}/{}", start_candidate, e.rel)
         };
         if guarded(|| glob.is_match(cand.as_str())) == Some(true) {
             if e.rel.is_empty() {
